@@ -174,3 +174,43 @@ func runC12_7(c *core.Ctx) {
 		}
 	})
 }
+
+func init() {
+	register(&core.Rule{ID: "C12.12", Prop: "C12", MinSites: 1,
+		Desc: "conn.cache is Peek's scratch only: the field whose content the next Discard (and release) hands to the byte pool receives a non-nil slice in conn.Peek alone – Peek's result is documented to be valid until the next Discard, whereas Next/Read/… hand out slices the caller keeps for the whole callback; parking such a slice in c.cache pools memory the application still owns",
+		Run:  runC12_12})
+}
+
+func runC12_12(c *core.Ctx) {
+	v := vocabOf(c)
+	if v == nil {
+		return
+	}
+	cacheF := c.P.Field("", "conn", "cache")
+	peek := c.P.Func("", "conn.Peek")
+	if !c.Need("conn.cache", cacheF) || !c.Need("conn.Peek", peek) {
+		return
+	}
+	n := 0
+	for _, f := range v.funcs {
+		ast.Inspect(f.Decl.Body, func(x ast.Node) bool {
+			as, ok := x.(*ast.AssignStmt)
+			if !ok {
+				return true
+			}
+			for k, l := range as.Lhs {
+				if flow.FieldOf(f.Info, l) != cacheF {
+					continue
+				}
+				n++
+				isNil := len(as.Lhs) == len(as.Rhs) && flow.IsNil(f.Info, as.Rhs[k])
+				c.Check(isNil || f.Obj == peek, f.Name, "c.cache assigned #"+itoa(n), as.Pos(), "only Peek parks a slice in the cache; everyone else clears it",
+					nameOf(f.Obj)+" stores a slice in c.cache, which the next Discard hands to the byte pool: unlike Peek's, the slice this function gives its caller stays in the caller's hands, so the pool recycles memory the application still reads – the next Get of that size class overwrites it")
+			}
+			return true
+		})
+	}
+	if n == 0 {
+		c.Violate("gnet.conn", "c.cache assignments", token.NoPos, "conn.cache is never assigned: the rule lost its subject")
+	}
+}
